@@ -158,6 +158,7 @@ def check(cx):
 
     # ---------------------------------------------------------------- R18.5
     r5 = cx.rule('R18.5', 'awaits under a guard', floor=50, kind='effect')
+    depends(cx, r5, 'C05', ('R5.2',), 'no socket / timer wait is reachable while the state lock is held (also through callees)')
     for d, w in walks:
         for e in w.events:
             if e.kind == 'await' and e.guards:
